@@ -129,7 +129,11 @@ var (
 
 func loadFindings(dir string) []finding {
 	findingsOnce.Do(func() {
-		b, err := os.ReadFile(filepath.Join(dir, "known_findings.jsonl"))
+		path := filepath.Join(dir, "known_findings.jsonl")
+		if v := os.Getenv("VERIF_KNOWN_FINDINGS"); v != "" {
+			path = v // development only
+		}
+		b, err := os.ReadFile(path)
 		if err != nil {
 			return
 		}
